@@ -139,6 +139,8 @@ var goroot = runtime.GOROOT()
 var raceHdr = regexp.MustCompile(`^(Write|Read|Previous write|Previous read|Atomic write|Atomic read|Previous atomic write|Previous atomic read) at 0x[0-9a-f]+ by `)
 
 // parseRace extracts, for the first report in txt, the first non-runtime frame of each access.
+var serialUserObj = regexp.MustCompile(`verifharness/scn\.\(\*(constBackoff|kbo|mBackoff)\)\.`)
+
 func parseRace(txt string) (funcs [2]string, files [2]string, ok bool) {
 	lines := strings.Split(txt, "\n")
 	k := 0
@@ -159,6 +161,11 @@ func parseRace(txt string) (funcs [2]string, files [2]string, ok bool) {
 			// an access inside the standard library or a third-party module is attributed to the first
 			// frame of our own code that led to it (library, harness or shim)
 			if strings.Contains(loc, "/pkg/mod/") || strings.HasPrefix(loc, goroot+"/") {
+				continue
+			}
+			// a harness object that stands for a user object the library is bound to call one call at a
+			// time (a BackOff policy is not safe for concurrent use): its own frames are transparent too
+			if serialUserObj.MatchString(fn) {
 				continue
 			}
 			if p := strings.LastIndex(fn, "("); p > 0 {
